@@ -209,7 +209,7 @@ def _ob(name, fn, tier, timeout, kind='ch', **params):
 
 OBLIGATIONS = [
     _ob('escape_le3', 'h_escape', 'quick', 600, maxn=3),
-    _ob('escape_le5', 'h_escape', 'thorough', 1800, maxn=5),
+    _ob('escape_le4', 'h_escape', 'thorough', 5400, maxn=4),
     _ob('escape_none', 'h_escape_none', 'quick', 60),
     _ob('gen_seg_values', 'h_gen_seg', 'quick', 1500, vary='values'),
     _ob('gen_seg_messages', 'h_gen_seg', 'quick', 1500, vary='messages'),
@@ -220,7 +220,7 @@ OBLIGATIONS = [
 
 LEVEL = 'other'
 EXPLANATION = __doc__
-BOUNDS = ('escape: every unicode string of <= 3 (5 thorough) characters; gen_seg: segment id from 5, values / error-message payloads from 9 hostile strings (varied one group at a time: values, messages, id+line), 4 delimiter triples (including < > & as delimiters), simple element or composite, line number 1..3 - all chosen symbolically; '
+BOUNDS = ('escape: every unicode string of <= 3 (4 thorough) characters; gen_seg: segment id from 5, values / error-message payloads from 9 hostile strings (varied one group at a time: values, messages, id+line), 4 delimiter triples (including < > & as delimiters), simple element or composite, line number 1..3 - all chosen symbolically; '
           'footer: every cursor state (no GS / no ST / open / closed set) x 9 hostile payloads.')
 OUTSIDE = ('whole-document reports (the per-segment line and the footer are the units);  loop-info lines '
            '(text comes from the map, not the input); values chosen from tables because %-formatting with %i in gen_seg concretises symbolic strings.')
